@@ -46,6 +46,15 @@ CLAIMED = {
    technique="symbolic execution of Numba typed IR + z3 (QF_BV for linear/heavy hitters; QF_FPBV for _log_counter; NRA real-idealised with math-mode integers for log merges, _func and _find_base plumbing)",
    text="From arbitrary states incl. cells at any distance from the ceiling: no linear add/merge lowers an estimate, estimates at 2^32-1 stay, sums saturate; a heavy-hitter cell re-adding or merging its own key ends at min(sum, 2^32-1); _log_counter is monotone, never passes the ceiling and stays at it (symbolic counter/num_reserved/base); merged log counters are never below an input and reach the ceiling from max_count on (real-idealised); _func(b)=0 is exactly 'the ceiling decodes to max_count'; _find_base performs 200 Newton steps on exactly the constructor's parameters (a narrowing cast shows up) and raises ValueError iff the last iterate < 1.000000001.",
    note="Convergence of the Newton iteration and the exact set of configurations rejected by the constructor are outside the claim (numeric iteration through **); plumbing counterexamples are replayed on the real constructors, which must either raise ValueError or decode the ceiling to max_count."),
+
+ "C17": dict(engine=K, category="model_checking", design="6 C17",
+   technique="symbolic execution of Numba typed IR + z3 (real-idealised: LRA/NRA + uninterpreted log/pow/interp, math-mode integers): result term == reference decision tree",
+   text="For all register arrays (m = 16 and 128 cells quick, 512 thorough; every cell symbolic), thresholds and alpha, the value returned by the real _query (with _linear_counting and _estimation_function inlined) equals the documented HLL++ decision tree built over the same uninterpreted log / 2**x / interp; the empty sketch gives exactly 0; every leaf is shown reachable. A structural counterexample is reported only after register arrays reproducing a numeric disagreement with an independent numpy rendering are found on real sketches (p in 7..16, one sketch reused per precision). Shipped-table facts are concrete data checks reported in the evidence.",
+   note="Floats idealised as reals (summation order immaterial); accuracy of np.log/np.interp/** outside the claim; table-row selection and alpha in __init__ are decided by the engine-W part."),
+ "C12": dict(engine=K + " + " + W, category="model_checking", design="6 C12",
+   technique="symbolic execution of Numba typed IR + z3 (call-trace equality for the ngram kernels, two-run state equality for multiplicity); CrossHair (z3) over the Python entry points with shimmed numpy/numba",
+   text="All five _add_ngram* kernels: for key lengths 0..8 (12 thorough) with symbolic bytes and every ngram >= 1 (n < len concretely, n >= len symbolically up to 2^64-1) the inner adds recorded are exactly the sliding windows / the whole key, with multiplicity 1, on the sketch's own arrays and with the random pointer threaded through. Multiplicity: add(k,v+1) == add(k,v);add(k,1) from an arbitrary state for linear and heavy hitters (v symbolic); for log sketches add(k,2) == add(k,1);add(k,1) via a composition lemma on the real _log_counter (real-idealised) plus the add kernels with _log_counter abstracted. update()/update_ngram()/__getitem__/HyperLogLog ignoring values: CrossHair harnesses over the real methods.",
+   note="ngram = 0 is outside the documented domain; general v follows from the v+1 lemma by induction (prose); W harnesses enumerate list/dict shapes up to 3 entries."),
 }
 NA = {}
 ALL = sorted(TITLES)
